@@ -98,6 +98,11 @@ func init() {
 			Run: func(P *Program, R *Report) {
 				notDecodableRule(P, R, "C11.h", [][2]string{{"revocation.Proof", "Nu"}, {"revocation.Proof", "Challenge"}, {"revocation.Proof", "acc"}, {"revocation.SignedAccumulator", "Accumulator"}})
 			}},
+		Rule{ID: "C11.i", Explain: "the 'if' direction: a proof from a valid witness verifies - the verification call tree has no rejecting branch besides the specified reasons, and the prover's non-revocation path refuses only for the specified reasons (tree 'prove').",
+			Run: func(P *Program, R *Report) {
+				treeRejectionsRule(P, R, "C11.i", "show", "the verification call tree")
+				treeRejectionsRule(P, R, "C11.i", "prove", "the proving call tree")
+			}},
 		Rule{ID: "C11.g", Explain: "determinism: on the verifier path no loop over a map returns a value that depends on which qualifying key was met first. revocationAttrIndex does (known finding K2).",
 			Run: func(P *Program, R *Report) { mapOrderVerdictRule(P, R) }},
 	)
